@@ -60,6 +60,27 @@ def map_sites(P, adt_path, fields):
     return out
 
 
+def every_segment(P, rep, key):
+    # the item loop of pass 2 runs for every segment, whatever its type (.set/.def/.undef written in a data segment count too)
+    kb = "builder::pass2::build_pass_2"
+    if kb in P.body:
+        import rules_C16
+        bb_ = P.body[kb]
+        idom = G.dominators(bb_)
+        calls2 = [x for x, t, n, tg in P.call_sites(kb) if "builder::pass2::pass_2_internal" in tg]
+        okseg = False
+        for head, nodes in rules_C16.natural_loops(bb_).items():
+            inl = [x for x in calls2 if x in nodes]
+            if not inl:
+                continue
+            srcs = [s_ for s_, h_ in G.back_edges(bb_) if h_ == head]
+            okseg = len(calls2) == 1 and all(G.dominates(idom, inl[0], s_) for s_ in srcs)
+        rep.ob(key, okseg, "pass 2 walks the items of every segment, of whatever type, in order (one call per round of the segment loop)" if okseg else
+               "pass 2's item loop is not run for every segment (the call of pass_2_internal does not lie on every round of the segment loop): .set/.def/.undef written in a skipped segment type are never applied")
+    else:
+        rep.unprovable(key, "build_pass_2 not found")
+
+
 def ident_paths(P):
     fn = "expr::Expr::run"
     M = absint.Machine(P, max_depth=4, opaque={"context::Context::get_expr"})
@@ -126,6 +147,28 @@ def run(tier):
     for m in MAPS:
         rep.ob("C10.case|%s|covered" % m, per_map.get(m, 0) >= 2, "map %s: %d access sites analysed" % (m, per_map.get(m, 0)), kind="unprovable", nontrivial=False)
 
+    # ---- when a kind of symbol gets bound: which stage can write which table
+    # labels in pass 1 (all before any operand is evaluated), .def/.undef and .set in pass 2's forward walk (so a use sees the latest
+    # one before it and none after it), .equ while parsing (and while a macro body is re-parsed in pass 0), pc in pass 2
+    STAGES = {"parsing": "directive::Directive::parse", "pass 0": "builder::pass0::build_pass_0", "pass 1": "builder::pass1::build_pass_1", "pass 2": "builder::pass2::build_pass_2"}
+    reach_stage = {nm: P.reachable([root]) for nm, root in STAGES.items() if root in P.body}
+    # pass 0 re-parses macro bodies: what parsing may do, pass 0 may do as well
+    WRITERS = {"labels": {"pass 1"}, "defs": {"pass 2"}, "sets": {"pass 2"}, "equs": {"parsing", "pass 0"}, "special": {"pass 2"}}
+    per_stage = {}
+    for k, bb, t, fname, meth in sites:
+        if meth not in ("insert", "remove", "clear", "entry", "extend", "retain", "drain"):
+            continue
+        for nm, rs in reach_stage.items():
+            if k in rs:
+                per_stage.setdefault(fname, set()).add(nm)
+    for m_, allowed in WRITERS.items():
+        got = per_stage.get(m_, set())
+        extra = sorted(got - allowed - ({"pass 0"} if "parsing" in allowed else set()))
+        okw = bool(got) and not extra
+        rep.ob("C10.stage|%s" % m_, okw,
+               "the %s table is written only in %s" % (m_, " / ".join(sorted(allowed))) if okw else
+               ("the %s table can also be written in %s: a name is then bound before (or after) the point the binding rules give it — e.g. a .set variable read before its first assignment resolves instead of failing" % (m_, " and ".join(extra)) if extra else
+                "no writer of the %s table found" % m_))
     # ---- unbound name -> Err
     fn = "expr::Expr::run"
     M = absint.Machine(P, max_depth=4, opaque={"context::Context::get_expr"})
@@ -189,24 +232,7 @@ def run(tier):
         ok = bool(rs)
         rep.ob("C10.sequence|%s" % kind.lower(), ok, ".%s is applied inside pass 2's forward item loop, between the instructions around it" % kind.lower() if ok else
                ".%s items are not handled in pass 2's item loop" % kind.lower())
-    # the item loop of pass 2 runs for every segment, whatever its type (.set/.def/.undef written in a data segment count too)
-    kb = "builder::pass2::build_pass_2"
-    if kb in P.body:
-        import rules_C16
-        bb_ = P.body[kb]
-        idom = G.dominators(bb_)
-        calls2 = [x for x, t, n, tg in P.call_sites(kb) if "builder::pass2::pass_2_internal" in tg]
-        okseg = False
-        for head, nodes in rules_C16.natural_loops(bb_).items():
-            inl = [x for x in calls2 if x in nodes]
-            if not inl:
-                continue
-            srcs = [s_ for s_, h_ in G.back_edges(bb_) if h_ == head]
-            okseg = len(calls2) == 1 and all(G.dominates(idom, inl[0], s_) for s_ in srcs)
-        rep.ob("C10.sequence|every-segment", okseg, "pass 2 walks the items of every segment, of whatever type, in order (one call per round of the segment loop)" if okseg else
-               "pass 2's item loop is not run for every segment (the call of pass_2_internal does not lie on every round of the segment loop): .set/.def/.undef written in a skipped segment type are never applied")
-    else:
-        rep.unprovable("C10.sequence|every-segment", "build_pass_2 not found")
+    every_segment(P, rep, "C10.sequence|every-segment")
     # .set stores the evaluated value (latest assignment wins: plain insert)
     sets = [r for r in rows2 if r.item == "Set" and r.exit == "loop"]
     okset = bool(sets) and all(any(e[0] == 'call' and e[1].endswith("::insert") and "sets" in e[2][0] and "Expr::Const(run(" in e[2][2] for e in r.events) for r in sets)
